@@ -193,7 +193,7 @@ pub fn query_pairs(max: usize) -> BoxedStrategy<Vec<(B, B)>> {
 pub const HEADER_POOL: &[&str] = &[
     "x-amz-meta-a", "x-amz-meta-b", "x-amz-content-sha256", "x-amz-target", "etag", "accept", "content-md5", "range",
     "x-custom", "x-custom-2", "user-agent", "x-amzn-trace-id", "cache-control", "x-a", "my-header1", "my-header2",
-    "x-amz-acl", "if-match",
+    "x-amz-acl", "if-match", "date", "x-custom-source", "x-custom-source-range", "content-length", "content-type",
 ];
 
 /// canonical header value: visible bytes, 0x80-0xFF, tabs, single inner spaces; no outer spaces, no space runs
@@ -222,6 +222,8 @@ pub fn header_value() -> BoxedStrategy<Vec<u8>> {
         .boxed()
 }
 
+pub const PAYLOAD_HASH_PLACEHOLDER: &[u8] = b"@payload-sha256";
+
 pub fn extra_headers(max: usize) -> BoxedStrategy<Vec<(String, Vec<B>)>> {
     vec((any::<u16>(), vec(header_value(), 1..=3)), 0..=max)
         .prop_map(|v| {
@@ -229,6 +231,12 @@ pub fn extra_headers(max: usize) -> BoxedStrategy<Vec<(String, Vec<B>)>> {
             for (x, vals) in v {
                 let n = HEADER_POOL[pick_idx(x, HEADER_POOL.len())].to_string();
                 if out.iter().any(|(m, _)| *m == n) {
+                    continue;
+                }
+                if n == "x-amz-content-sha256" && x % 3 != 0 {
+                    // what S3 clients really send: the payload hash (filled in once the body is final) or the literal marker
+                    let v = if x % 3 == 1 { PAYLOAD_HASH_PLACEHOLDER.to_vec() } else { b"UNSIGNED-PAYLOAD".to_vec() };
+                    out.push((n, vec![B(v)]));
                     continue;
                 }
                 out.push((n, vals.into_iter().map(B).collect()));
@@ -258,6 +266,8 @@ pub fn host_value() -> BoxedStrategy<Vec<u8>> {
         1 => Just(b"localhost:8080".to_vec()),
         1 => Just(b"h".to_vec()),
         1 => Just(b"xn--bcher-kva.example".to_vec()),
+        1 => Just(b"example.amazonaws.com:443".to_vec()),
+        1 => Just(b"h:80".to_vec()),
     ]
     .boxed()
 }
@@ -601,6 +611,7 @@ pub fn secret() -> BoxedStrategy<String> {
         3 => "[ -~]{0,40}",
         1 => Just(String::new()),
         1 => "[a-z]{1,8}",
+        1 => ("[!-~]{0,30}", prop_oneof![Just("\n"), Just("\r\n"), Just(" "), Just("\t"), Just("\r"), Just("  ")], any::<bool>()).prop_map(|(s, w, front)| if front { format!("{}{}", w, s) } else { format!("{}{}", s, w) }),
         1 => vec(prop_oneof![Just("é"), Just("ß"), Just("日"), Just("a"), Just("\u{0}"), Just("𝄞")], 0..10).prop_map(|v| v.concat()),
     ]
     .prop_filter("fits KSecretKey", |s| s.len() <= 40)
@@ -797,6 +808,14 @@ impl Plan {
                 l.headers.push(("content-type".into(), vec![B::from(ct.as_str())]));
             }
         }
+        let hash = crate::model::crypto::hex_lower(&crate::model::crypto::sha256(&l.body.0));
+        for (_, vals) in l.headers.iter_mut() {
+            for v in vals.iter_mut() {
+                if v.0 == PAYLOAD_HASH_PLACEHOLDER {
+                    *v = B::from(hash.as_str());
+                }
+            }
+        }
         spell(&l, &self.spelling, self.cfg.s3)
     }
     pub fn provider(&self) -> ProviderScript {
@@ -858,7 +877,7 @@ pub fn plan(o: PlanOpts) -> BoxedStrategy<Plan> {
                 4 => [2, 0, 1],
                 _ => [2, 1, 0],
             };
-            spec.sep = misc[2] % 4;
+            spec.sep = misc[2] % 6;
             spec.loose_escapes = misc[3] % 2 == 0;
             spec.auth_first = misc[3] % 3 == 0;
             spec.date_header_name = spell_header_name("x-amz-date", misc[0]);
